@@ -313,21 +313,28 @@ structure PadSpec where
   fillMode : FillMode := .none
   fillStyle : Sgr.Style := {}
 
+/-- The empty-line marker (`mark_empty_line(style, line, Some(" "))`) when requested. -/
+def withMarker (spec : PadSpec) (line : List Item) : List Item :=
+  match spec.emptyMark with
+  | some st => line ++ paintItems st [⟨[' '], 1⟩]
+  | none => line
+
+/-- Truncation to the panel width when the text is wider. -/
+def fitPanel (spec : PadSpec) (line1 : List Item) : Option (List Item) :=
+  if width line1 > spec.panelWidth then truncate spec.panelWidth spec.tail (some ' ') line1
+  else some line1
+
+/-- The fill; `tw` is the text width measured *before* truncation. -/
+def fillPanel (spec : PadSpec) (tw : Nat) (line2 : List Item) : List Char :=
+  match spec.fillMode with
+  | .ansi => rightFill (flatten line2) spec.fillStyle
+  | .spaces =>
+    if tw ≥ spec.panelWidth then flatten line2
+    else spacesFill (flatten line2) spec.fillStyle (spec.panelWidth - tw)
+  | .none => flatten line2
+
 /-- `pad_panel_line_to_width`: marker, truncate to the panel width, fill. -/
 def padPanel (spec : PadSpec) (line : List Item) : Option (List Char) :=
-  let line1 := match spec.emptyMark with
-    | some st => line ++ paintItems st [⟨[' '], 1⟩]
-    | none => line
-  let tw := width line1
-  match (if tw > spec.panelWidth then truncate spec.panelWidth spec.tail (some ' ') line1
-         else some line1) with
-  | none => none
-  | some line2 =>
-    match spec.fillMode with
-    | .ansi => some (rightFill (flatten line2) spec.fillStyle)
-    | .spaces =>
-      if tw ≥ spec.panelWidth then some (flatten line2)
-      else some (spacesFill (flatten line2) spec.fillStyle (spec.panelWidth - tw))
-    | .none => some (flatten line2)
+  (fitPanel spec (withMarker spec line)).map (fillPanel spec (width (withMarker spec line)))
 
 end Line
